@@ -1208,24 +1208,40 @@ class PendingImport(PendingNode[Import]):
     def get_result(self) -> list[expr]:
         result = []
         for _alias in self.node.names:
+            import_call: expr = Call(
+                func=Attribute(
+                    value=Name(id="importlib", ctx=Load()),
+                    attr="import_module",
+                ),
+                args=[Constant(value=_alias.name)],
+                keywords=[],
+            )
             if _alias.asname is None:
-                asname = _alias.name
+                # "import a.b" imports a.b but binds the top-level package a
+                asname = _alias.name.split(".")[0]
+                if asname != _alias.name:
+                    import_call = Subscript(
+                        value=List(
+                            elts=[
+                                import_call,
+                                Call(
+                                    func=Attribute(
+                                        value=Name(id="importlib", ctx=Load()),
+                                        attr="import_module",
+                                    ),
+                                    args=[Constant(value=asname)],
+                                    keywords=[],
+                                ),
+                            ],
+                            ctx=Load(),
+                        ),
+                        slice=Constant(value=-1),
+                        ctx=Load(),
+                    )
             else:
                 asname = _alias.asname
 
-            result.append(
-                self.nsp.get_assign(
-                    asname,
-                    Call(
-                        func=Attribute(
-                            value=Name(id="importlib", ctx=Load()),
-                            attr="import_module",
-                        ),
-                        args=[Constant(value=_alias.name)],
-                        keywords=[],
-                    ),
-                )
-            )
+            result.append(self.nsp.get_assign(asname, import_call))
 
         return result
 
